@@ -98,6 +98,23 @@ type decl struct {
 	declared bool // the property speaks about this path
 }
 
+// effAnn: what config.Get answers for a path: its annotations, else the global ConfigMap
+// for the keys that are honoured without a source.  `oauth` and `oauth-uri-prefix` are
+// only honoured when they come from an annotation (Source != nil), so a global value of
+// these is not a declaration.
+func effAnn(in input, ann map[string]string) map[string]string {
+	out := map[string]string{}
+	for _, k := range []string{kURL, kPlace, kSignin} {
+		if v, ok := in.Global[k]; ok {
+			out[k] = v
+		}
+	}
+	for k, v := range ann {
+		out[k] = v
+	}
+	return out
+}
+
 func declOf(ann map[string]string) decl {
 	d := decl{url: ann[kURL], place: "backend"}
 	if v, ok := ann[kPlace]; ok {
@@ -160,7 +177,7 @@ func genAnn(rng *rand.Rand) map[string]string {
 			ann[kOAuth] = pick(rng, []string{"none", "", "OAuth2_Proxy"})
 		}
 		if rng.Intn(5) == 0 {
-			ann[kPrefix] = pick(rng, []string{"/oauth2", "/auth2", "/oauth2/", ""})
+			ann[kPrefix] = pick(rng, []string{"/oauth2", "/auth2", "/oauth2/", "", "/", "//", " ", "oauth2"})
 		}
 	default: // both
 		ann[kOAuth] = "oauth2_proxy"
@@ -182,10 +199,38 @@ func genAnn(rng *rand.Rand) map[string]string {
 			ann[kPlace] = pick(rng, []string{"front", "", "both"})
 		}
 	}
+	// present but empty or blank: the way to opt out of a value of the global ConfigMap
+	if rng.Intn(8) == 0 {
+		k := pick(rng, []string{kURL, kURL, kOAuth, kPlace, kPrefix})
+		ann[k] = pick(rng, []string{"", "", " ", "\t", "  "})
+	}
 	if _, has := ann[kURL]; has && rng.Intn(5) == 0 {
 		ann[kSignin] = pick(rng, []string{"/login", "http://sso.local/login?rd=%[path]", "bad 'url"})
 	}
 	return ann
+}
+
+// defaults of the global ConfigMap for the authentication keys
+func genGlobalAuth(rng *rand.Rand, g map[string]string) {
+	if rng.Intn(6) != 0 {
+		return
+	}
+	switch rng.Intn(4) {
+	case 0, 1:
+		if rng.Intn(3) == 0 {
+			g[kURL] = pick(rng, badURLs)
+		} else {
+			g[kURL] = pick(rng, goodURLs)
+		}
+	case 2:
+		g[kOAuth] = "oauth2_proxy" // no source: not honoured by the code, see effAnn
+	case 3:
+		g[kURL] = pick(rng, goodURLs)
+		g[kOAuth] = "oauth2_proxy"
+	}
+	if rng.Intn(3) == 0 {
+		g[kPlace] = pick(rng, []string{"frontend", "backend", "", "both"})
+	}
 }
 
 func genPipeline(rng *rand.Rand) input {
@@ -200,6 +245,7 @@ func genPipeline(rng *rand.Rand) input {
 			in.Global["external-has-lua"] = "true"
 		}
 	}
+	genGlobalAuth(rng, in.Global)
 	hosts := []string{"h1.local", "h2.local"}
 	paths := []string{"/", "/app", "/api", "/app/sub", "/App", "/x"}
 	used := map[string]bool{}
@@ -314,6 +360,16 @@ func corpus() []input {
 			{Namespace: "team-a", Name: "ing1", Ann: annOf(kURL, "svc://authsvc:8080/check", kPlace, "frontend"), Rules: r("a.local", "/", "app1")},
 			{Namespace: "team-a", Name: "ing2", Ann: annOf(kURL, "svc://authsvc:9090/check"), Rules: r("a2.local", "/", "app1")},
 			{Namespace: "team-b", Name: "ing1", Ann: annOf(kURL, "svc://authsvc:9090/check", kPlace, "frontend"), Rules: r("b.local", "/", "app1")}}},
+		// oauth next to an auth-url that is present but empty (opting out of a global auth-url)
+		{Kind: "pipeline", PathType: "Prefix", Services: svcs, Ingresses: []ingIn{
+			{Name: "ing1", Ann: annOf(kOAuth, "oauth2_proxy", kURL, ""), Rules: r("h1.local", "/", "app1")}, oauthIng}},
+		{Kind: "pipeline", PathType: "Prefix", Global: map[string]string{kURL: "http://10.0.0.2:8000/auth"}, Services: svcs, Ingresses: []ingIn{
+			{Name: "ing1", Ann: annOf(kOAuth, "oauth2_proxy", kURL, ""), Rules: r("h1.local", "/", "app1")},
+			{Name: "ing2", Rules: r("h1.local", "/inherits", "app1")},
+			{Name: "ing3", Ann: annOf(kURL, "http://10.0.0.3:8000/auth"), Rules: r("h1.local", "/other", "app2")}, oauthIng}},
+		// oauth-uri-prefix "/" : the allowed path would be "/"
+		{Kind: "pipeline", PathType: "Prefix", Services: svcs, Ingresses: []ingIn{
+			{Name: "ing1", Ann: annOf(kOAuth, "oauth2_proxy", kPrefix, "/"), Rules: r("h1.local", "/", "app1")}, oauthIng}},
 		// empty auth-proxy range
 		{Kind: "pipeline", PathType: "Prefix", Global: map[string]string{"auth-proxy": "_front__auth__local:14420-14410"}, Services: svcs, Ingresses: []ingIn{
 			{Name: "ing1", Ann: annOf(kURL, "http://10.0.0.2:8000/auth"), Rules: r("h1.local", "/app", "app1")}}},
@@ -392,7 +448,7 @@ func runPipeline(in input, scratch string) *pipeObs {
 		obs.Binds[b.AuthBackendName] = b.Backend.String()
 	}
 	for _, g := range in.Ingresses {
-		d := declOf(g.Ann)
+		d := declOf(effAnn(in, g.Ann))
 		for _, r := range g.Rules {
 			link := hatypes.CreateHostPathLink(r.Host, r.Path, matchOf(in.PathType))
 			be := hc.Backends().FindBackend(g.ns(), r.Service, "8080")
@@ -582,7 +638,7 @@ func oraclePipeline(in input, obs *pipeObs) []fail {
 	}
 	for _, po := range obs.Paths {
 		g := byIng[po.Ingress]
-		d := declOf(g.Ann)
+		d := declOf(effAnn(in, g.Ann))
 		if !d.declared {
 			continue
 		}
@@ -606,6 +662,10 @@ func oraclePipeline(in input, obs *pipeObs) []fail {
 				key = "frontend-path-unprotected"
 			}
 			fs = append(fs, fail{key, id + ": neither AlwaysDeny nor an auth backend on the path object"})
+			continue
+		}
+		if po.Allowed == "/" && !po.Deny {
+			fs = append(fs, fail{"oauth-allowed-path-root", id + ": the oauth configuration exempts path_beg / , that is every request, from the authentication"})
 			continue
 		}
 		// 2. the auth backend is the one the declaration names
@@ -632,7 +692,11 @@ func oraclePipeline(in input, obs *pipeObs) []fail {
 				fs = append(fs, fail{"wrong-auth-service", fmt.Sprintf("%s: rendered %s reaches backend %s, the bind list says %s", id, name, rb, target)})
 				return
 			}
-			ips, port, backendID, ok := urlTarget(url, g.ns())
+			urlNS := g.ns()
+			if _, own := g.Ann[kURL]; !own {
+				urlNS = "" // inherited from the global ConfigMap: no source, no namespace
+			}
+			ips, port, backendID, ok := urlTarget(url, urlNS)
 			if !ok {
 				fs = append(fs, fail{"wrong-auth-service", fmt.Sprintf("%s: %q cannot designate a service but %s -> %s was configured", id, url, name, target)})
 				return
